@@ -5,7 +5,6 @@ import (
 	"flag"
 	"fmt"
 	"os"
-	"path/filepath"
 	"sort"
 	"strings"
 	"sync"
@@ -205,8 +204,10 @@ func run(replay string, noResolvers bool, scratch string) int {
 	var unstable []string
 	harnessErr := false
 	var samples []any
+	var site *Site
 	if !noResolvers {
-		site, err := NewSite(scratch, uint64(seed))
+		var err error
+		site, err = NewSite(scratch, uint64(seed))
 		if err != nil {
 			fmt.Fprintln(os.Stderr, "harness error: cannot build the populated repository:", err)
 			return 2
@@ -229,7 +230,7 @@ func run(replay string, noResolvers bool, scratch string) int {
 			}
 			fmt.Fprintf(os.Stderr, "== C20 resolver list %s: %v\n", l.Name, info)
 		}
-		site.Close()
+		defer site.Close()
 	}
 	// samples of the connection level
 	for _, sc := range []struct {
@@ -258,8 +259,14 @@ func run(replay string, noResolvers bool, scratch string) int {
 	})
 	for _, k := range keys {
 		h := col.hits[k]
-		rep.Report(evidence.Report{Oracle: h.oracle, Sig: h.sig, Detail: h.detail,
-			Replay: map[string]any{"case": h.c, "observed": h.page}, Count: h.count})
+		repro := 0
+		for i := 0; i < 5; i++ {
+			if again, err := execCase(h.c, funcs, site); err == nil && again.hits[k] != nil {
+				repro++
+			}
+		}
+		rep.Report(evidence.Report{Oracle: h.oracle, Sig: h.sig, Detail: fmt.Sprintf("%s (reproduced %d/5)", h.detail, repro),
+			Replay: map[string]any{"case": h.c, "observed": h.page, "reproduced_of_5": repro}, Count: h.count})
 	}
 	cov := map[string]any{
 		"states":                        len(col.states),
@@ -419,24 +426,8 @@ func checkList(col *collector, site *Site, l List, li int) (info map[string]any,
 	return info, false, sample, nil
 }
 
-func doReplay(path string, funcs []ConFunc, scratch string, seed uint64) int {
-	b, err := os.ReadFile(path)
-	if err != nil {
-		fmt.Fprintln(os.Stderr, err)
-		return 2
-	}
-	var f struct {
-		Oracle string `json:"oracle"`
-		Sig    string `json:"sig"`
-		Replay struct {
-			Case Case `json:"case"`
-		} `json:"replay"`
-	}
-	if err := json.Unmarshal(b, &f); err != nil {
-		fmt.Fprintln(os.Stderr, err)
-		return 2
-	}
-	c := f.Replay.Case
+// execCase re-executes one case and returns what it reports.
+func execCase(c Case, funcs []ConFunc, site *Site) (*collector, error) {
 	col := newCollector()
 	classOf := func(n int, v *string, class string) Cursor {
 		for _, cu := range cursorDomain(n) {
@@ -465,27 +456,22 @@ func doReplay(path string, funcs []ConFunc, scratch string, seed uint64) int {
 			}
 		}
 	default:
-		site, err := NewSite(filepath.Join(scratch), seed)
-		if err != nil {
-			fmt.Fprintln(os.Stderr, "harness error:", err)
-			return 2
+		if site == nil {
+			return nil, fmt.Errorf("no populated repository for a %s case", c.Level)
 		}
-		defer site.Close()
 		for li, l := range site.lists() {
 			if l.Name != c.Target {
 				continue
 			}
 			if c.Level == "list-order" {
 				if _, _, _, err := checkList(col, site, l, li); err != nil {
-					fmt.Fprintln(os.Stderr, "harness error:", err)
-					return 2
+					return nil, err
 				}
 				break
 			}
 			full, _, err := fullList(site, l, 1)
 			if err != nil {
-				fmt.Fprintln(os.Stderr, "harness error:", err)
-				return 2
+				return nil, err
 			}
 			order := map[string]int{}
 			for i, k := range full {
@@ -502,6 +488,42 @@ func doReplay(path string, funcs []ConFunc, scratch string, seed uint64) int {
 				}
 			}
 		}
+	}
+	return col, nil
+}
+
+func doReplay(path string, funcs []ConFunc, scratch string, seed uint64) int {
+	b, err := os.ReadFile(path)
+	if err != nil {
+		fmt.Fprintln(os.Stderr, err)
+		return 2
+	}
+	var f struct {
+		Oracle string `json:"oracle"`
+		Sig    string `json:"sig"`
+		Replay struct {
+			Case Case `json:"case"`
+		} `json:"replay"`
+	}
+	if err := json.Unmarshal(b, &f); err != nil {
+		fmt.Fprintln(os.Stderr, err)
+		return 2
+	}
+	c := f.Replay.Case
+	var site *Site
+	if !strings.HasPrefix(c.Level, "connection") {
+		var err error
+		site, err = NewSite(scratch, seed)
+		if err != nil {
+			fmt.Fprintln(os.Stderr, "harness error:", err)
+			return 2
+		}
+		defer site.Close()
+	}
+	col, err := execCase(c, funcs, site)
+	if err != nil {
+		fmt.Fprintln(os.Stderr, "harness error:", err)
+		return 2
 	}
 	hitIt := false
 	for k, h := range col.hits {
